@@ -83,3 +83,8 @@ Fixpoint draw_t (t : atree) : list Z :=
 Definition c15_draw (a : Z * list ctree) : list Z :=
   let d := op_set_mode (mode_of (fst a)) (open_clip Photoshop (snd a)) in
   draw_level (lay d) ++ flat_map draw_t (lay d).
+
+(* membership edits through the public API: the harness supplies the document's forest after the edit
+   (read off the real objects' records) and its mode; the code has recomputed *)
+Definition c15_edit (a : Z * list ctree) : list Z :=
+  ser_doc (recompute (mode_of (fst a)) (map fresh_t (snd a))).
